@@ -14,6 +14,8 @@ import MF.Gen.Catalog
 import MF.Gen.PosDoc
 import MF.Gen.PosGo
 import MF.Gen.WalkGo
+import MF.Model.Print
+import MF.Gen.SqlGo
 open MF MF.Lex
 
 def hx (b : Bytes) : String := if b.isEmpty then "-" else toHex b
@@ -66,19 +68,39 @@ def fmtPE (doc go : Option (Int × Int)) (pick : Int × Int → Int) : String :=
   | some d, none => s!"doc={pick d},goX"
   | none, none => "X"
 
+/-- big-endian 4-byte runes -/
+def runes4 : Bytes → List Nat
+  | a :: b :: c :: d :: t => (a.toNat * 16777216 + b.toNat * 65536 + c.toNat * 256 + d.toNat) :: runes4 t
+  | _ => []
+
+/-- the trailing `NP <hex>` of a TREE request: the runes of the tree's strings that Go's unicode.IsPrint rejects -/
+def npOf : List String → Option (List Nat)
+  | ["NP", h] => some (runes4 ((ofHex? (if h == "-" then "" else h)).getD []))
+  | _ :: t => npOf t
+  | [] => none
+
+/-- the canonical rendering of a `SQL()` result: `<len>:<fnv1a64>` or `PANIC` -/
+def fmtSql : Option Bytes → String
+  | some b => s!"{b.length}:{(Ast.fnv1a64 b).toNat}"
+  | none => "PANIC"
+
 def treeRun (prune : Nat) (toks : List String) : String :=
   match Ast.parseNode toks with
   | none => "BADTREE"
   | some (root, gvs, rest) =>
     let nodes := Ast.preorder root
-    let parts := (nodes.zip gvs).map (fun (n, g) =>
+    -- `isPrint`: Go's own judgement when the request carries it; otherwise a fixed approximation
+    -- (ASCII 0x20..0x7E and everything from 0x80 on printable)
+    let isPrint : Nat → Bool := match npOf rest with
+      | some nps => fun r => !nps.contains r
+      | none => fun r => (decide (0x20 ≤ r) && decide (r ≤ 0x7E)) || decide (r ≥ 0x80)
+    let parts := (nodes.zip gvs).map (fun (n, _) =>
       let d := Ast.docPosEnd posTables n
       let q := Ast.goPosEnd posTables n
-      s!"{n.kind}:{fmtPE d q (·.1)}:{fmtPE d q (·.2)}:{g.sql}")
+      s!"{n.kind}:{fmtPE d q (·.1)}:{fmtPE d q (·.2)}:{fmtSql (Ast.sqlOf Gen.sqlTables isPrint n)}")
     let evs := match Ast.walk (pathVis prune) Gen.walkGo root "" with
       | some es => " ".intercalate (es.map fmtEvent)
       | none => "FUEL"
-    let _ := rest
     " ".intercalate parts ++ " W " ++ evs
 
 def handle (line : String) : String :=
